@@ -106,6 +106,19 @@ def generate(seed, tier, batch):
                 for m in ms:
                     alive.remove(m)
                     dead.append(m)
+            elif x < 0.325 and len(alive) <= 2 and nxt + 2 <= MAX_EVER and backend != "bosonic":
+                # empty the register completely, then create modes again (the mode map restarts from nothing alive)
+                ms = list(alive)
+                r.shuffle(ms)
+                ops.append({"op": "Del", "m": ms})
+                for m in ms:
+                    alive.remove(m)
+                    dead.append(m)
+                k_new = 2 if max_alive >= 2 else 1
+                ops.append({"op": "New", "n": k_new, "m": list(range(nxt, nxt + k_new))})
+                alive += list(range(nxt, nxt + k_new))
+                nxt += k_new
+                ops.append({"op": "Coherent", "p": [round(r.uniform(0.1, amax), 3), round(r.uniform(0, 6.2), 3)], "m": [alive[0]]})
             elif x < 0.50:
                 ops.append({"op": "Coherent", "p": [round(r.uniform(0.1, amax), 3), round(r.uniform(0, 6.2), 3)], "m": [r.choice(alive)]})
             elif x < 0.60:
@@ -118,8 +131,12 @@ def generate(seed, tier, batch):
                 ops.append({"op": "LossChannel", "p": [round(r.uniform(0.2, 1), 3)], "m": [r.choice(alive)]})
             elif x < 0.93:
                 ops.append({"op": "Vacuum", "m": [r.choice(alive)]})
-            else:
+            elif x < 0.965 or backend == "bosonic":
                 ops.append({"op": "MeasureHomodyne", "p": [round(r.uniform(0, 3), 3)], "m": [r.choice(alive)]})
+            else:
+                # photon counting: the distribution handed to the sampler must be the one of the measured modes' own data
+                ms = r.sample(alive, r.randint(1, min(2, len(alive))))
+                ops.append({"op": "MeasureFock", "m": ms})
         segs.append({"ops": ops})
     segs[0]["n"] = n0
     # invalid operations: (segment index after which / inside which they are attempted)
@@ -139,6 +156,8 @@ def generate(seed, tier, batch):
 class Model:
     """reference register: index -> amplitude (alive) ; dead set ; next index"""
 
+    fock_resets = True
+
     def __init__(self, n0):
         self.amp = {i: 0j for i in range(n0)}
         self.dead = set()
@@ -148,6 +167,7 @@ class Model:
     def copy(self):
         m = Model(0)
         m.amp, m.dead, m.nxt, m.deleted_ever = dict(self.amp), set(self.dead), self.nxt, self.deleted_ever
+        m.fock_resets = self.fock_resets
         return m
 
     def apply(self, o):
@@ -179,6 +199,10 @@ class Model:
             self.amp[o["m"][0]] *= math.sqrt(o["p"][0])
         elif k in ("Vacuum", "MeasureHomodyne", "MeasureX"):
             self.amp[o["m"][0]] = 0j
+        elif k == "MeasureFock":
+            if self.fock_resets:
+                for m in o["m"]:
+                    self.amp[m] = 0j
         else:
             raise ValueError(k)
 
@@ -210,8 +234,72 @@ def execute(script, w):
     tol = 3e-3 if backend == "fock" else 1e-7
     outcomes = SeededOutcomes(script["tape"], w)
     plan = FaultPlan()
-    simenv = SimEnv(w, outcomes, plan)
     segs = script["segs"]
+    # ---- photon counting at the seam: which distribution is handed over for which modes (checked against the model's own amplitudes)
+    live = {"queue": {}, "pending": None}
+
+    def snapshots():
+        """amplitudes of the measured modes just before every MeasureFock of the history, in program order, keyed by the measured tuple
+        (legal reorderings keep a measurement ordered with everything that touches its modes, so these are well defined)"""
+        q_ = {}
+        mm = Model(segs[0]["n"])
+        for sg in segs:
+            for o_ in sg["ops"]:
+                if o_["op"] == "MeasureFock":
+                    q_.setdefault(tuple(o_["m"]), []).append({m_: mm.amp[m_] for m_ in o_["m"]})
+                mm.apply(o_)
+        return q_
+
+    def poisson_joint(alphas, D):
+        import itertools
+        ps = []
+        for a_ in alphas:
+            lam = abs(a_) ** 2
+            ps.append(np.array([math.exp(-lam) * lam ** k_ / math.factorial(k_) for k_ in range(D)]))
+        out = ps[0]
+        for p_ in ps[1:]:
+            out = np.multiply.outer(out, p_)
+        return out.ravel()
+
+    def on_call(phase, be, name, a, k, out):
+        if name != "measure_fock" or phase != "pre":
+            return
+        modes = [int(m_) for m_ in k.get("modes", a[0] if a else None)]
+        lst = live["queue"].get(tuple(modes), [])
+        live["pending"] = (modes, lst.pop(0) if lst else None)
+
+    def count_handler(name, args, kwargs, native):
+        if backend == "fock" and name == "choice" and live["pending"] is not None and live["pending"][1] is not None:
+            (modes, snap), live["pending"] = live["pending"], None
+            D = script["opts"]["cutoff_dim"]
+            p = np.asarray(kwargs.get("p"), dtype=float)
+            ms_sorted = sorted(modes)
+            want = poisson_joint([snap[m_] for m_ in ms_sorted], D)
+            if len(p) != len(want) or np.max(np.abs(p / p.sum() - want / want.sum())) > 5e-3:
+                w.violation("own-data", "photon-count-distribution", {"measured": modes, "model_amplitudes": [snap[m_] for m_ in ms_sorted],
+                                                                     "handed_to_rng_head": p[:6].tolist(), "expected_head": want[:6].tolist()}, feats)
+                raise Violation("own-data", "photon-count-distribution", "stop")
+            w.probes["photon_count_distribution_checked"] += 1
+            return int(np.argmax(p))
+        return outcomes(name, args, kwargs, native)
+
+    def hafnian_stub(cov, samples, mean=None, **kw):
+        w.seams["walrus:hafnian_sample_state"] += 1
+        pend, live["pending"] = live["pending"], None
+        modes, snap = pend if pend is not None else (None, None)
+        if modes is not None and snap is not None:
+            # Gaussian backend, product of coherent states: vacuum covariance and the measured modes' own means, xxpp over the measured order
+            al = [snap[m_] for m_ in modes]
+            want_mean = np.array([2 * a_.real for a_ in al] + [2 * a_.imag for a_ in al])
+            got_mean = np.zeros(2 * len(modes)) if mean is None else np.asarray(mean, dtype=float)
+            if np.asarray(cov).shape != (2 * len(modes),) * 2 or np.max(np.abs(np.asarray(cov) - np.eye(2 * len(modes)))) > 1e-7 or np.max(np.abs(got_mean - want_mean)) > 1e-7:
+                w.violation("own-data", "photon-count-distribution", {"measured": modes, "model_amplitudes": al, "mean_handed_to_sampler": got_mean.tolist(),
+                                                                     "expected_mean": want_mean.tolist()}, feats)
+                raise Violation("own-data", "photon-count-distribution", "stop")
+            w.probes["photon_count_distribution_checked"] += 1
+        return np.zeros((samples, len(cov) // 2), dtype=int)
+
+    simenv = SimEnv(w, outcomes, plan, on_call=on_call)
     has_newdel = any(o["op"] in ("New", "Del") for s in segs for o in s["ops"])
     rejected = [0]
 
@@ -250,6 +338,10 @@ def execute(script, w):
         return build_program(segs[i], parent=parent, name="seg%d" % i)
 
     with simenv:
+        import strawberryfields.backends.gaussianbackend.backend as _gb
+        simenv.rng.handler = count_handler
+        _gb.hafnian_sample_state = hafnian_stub  # restored by SimEnv.__exit__
+        Model.fock_resets = backend != "gaussian"
         # models after each segment
         models = []
         m = Model(segs[0]["n"])
@@ -269,6 +361,8 @@ def execute(script, w):
                 p = build_seg(i, parent)
                 progs.append(p)
                 parent = p
+        except Violation:
+            return
         except Exception as ex:  # noqa
             w.violation("valid-history-accepted", "front-end", {"exc": type(ex).__name__, "msg": str(ex)[:300]}, feats)
             return
@@ -277,6 +371,7 @@ def execute(script, w):
             """run segments [0, upto) ; returns list of (res) per call"""
             how = how or script["call"]
             outcomes.rewind()
+            live["queue"] = snapshots()
             pl = progs[: (upto if upto is not None else len(progs))]
             if how == "list":
                 w.step("run_list", n=len(pl))
@@ -291,10 +386,13 @@ def execute(script, w):
         if crash is None:
             if script["call"] == "seq":
                 outcomes.rewind()
+                live["queue"] = snapshots()
                 for i, p in enumerate(progs):
                     w.step("run", prog=p.name)
                     try:
                         res = eng.run(p)
+                    except Violation:
+                        return
                     except Exception as ex:  # noqa
                         w.violation("valid-history-accepted", "run", {"segment": i, "exc": type(ex).__name__, "msg": str(ex)[:300]}, feats)
                         return
@@ -305,6 +403,8 @@ def execute(script, w):
             else:
                 try:
                     res = run_history(eng)
+                except Violation:
+                    return
                 except Exception as ex:  # noqa
                     w.violation("valid-history-accepted", "run", {"exc": type(ex).__name__, "msg": str(ex)[:300]}, feats)
                     return
@@ -327,8 +427,15 @@ def execute(script, w):
             if script.get("reset_between"):
                 w.step("reset")
                 eng.reset()
+                # documented: reset clears the measured values of all registers of previously run programs - deleted modes included
+                stale = [(p_.name, k_) for p_ in progs for k_, r_ in p_.reg_refs.items() if r_.val is not None]
+                if stale:
+                    w.violation("reset", "measured-values-cleared", {"still_holding_a_value": stale[:6]}, feats)
+                    return
                 try:
                     res = run_history(eng, how="list" if script["call"] == "seq" else "seq")
+                except Violation:
+                    return
                 except Exception as ex:  # noqa
                     w.violation("valid-history-accepted", "run-after-reset", {"exc": type(ex).__name__, "msg": str(ex)[:300]}, feats)
                     return
@@ -358,11 +465,15 @@ def execute(script, w):
             w.fault("recover_reset")
             try:
                 eng.reset()
+            except Violation:
+                return
             except Exception as ex:  # noqa
                 w.violation("recovery", "reset-after-crash", {"exc": type(ex).__name__, "msg": str(ex)[:200], "k": k}, feats + ["crash"])
                 return
         try:
             res = run_history(eng)
+        except Violation:
+            return
         except Exception as ex:  # noqa
             w.violation("recovery", "run-after-reset", {"exc": type(ex).__name__, "msg": str(ex)[:300], "k": k, "when": crash["when"]}, feats + ["crash"])
             return
